@@ -50,16 +50,13 @@ func (b *ProcessLogBuffer) GetLogRange(offsetFromEnd, limit int) []string {
 	if limit < 1 {
 		limit = 0
 	}
-	if limit > len(b.buffer) {
-		limit = len(b.buffer)
-	}
-	if offsetFromEnd+limit > len(b.buffer) {
-		limit = len(b.buffer) - offsetFromEnd
+	if limit > offsetFromEnd {
+		limit = offsetFromEnd
 	}
 	if limit == 0 {
 		return b.buffer[len(b.buffer)-offsetFromEnd:]
 	}
-	return b.buffer[len(b.buffer)-offsetFromEnd : offsetFromEnd+limit]
+	return b.buffer[len(b.buffer)-offsetFromEnd : len(b.buffer)-offsetFromEnd+limit]
 }
 
 func (b *ProcessLogBuffer) GetLogLength() int {
